@@ -96,6 +96,9 @@ func TestC18Child(t *testing.T) {
 			return
 		}
 		for r, runs := range rounds {
+			if p.Seed == "" {
+				continue // a random seed: nothing to compare, the race detector still watches
+			}
 			if d := alone.diff(runs[i]); d != "" {
 				msg := fmt.Sprintf("program %d gives another trace when %d runners are created and driven concurrently (round %d) than alone: %s | alone: %s | concurrent: %s",
 					i, len(c.Programs), r, d, strings.ReplaceAll(showTrace(alone.Trace), "\n", " / "), strings.ReplaceAll(showTrace(runs[i].Trace), "\n", " / "))
@@ -150,7 +153,7 @@ var c18ScriptOpts = scriptOpts{maxNodes: 3, maxDepth: 3, maxBody: 4, random: tru
 		g.lineID++
 		switch rapid.IntRange(0, 2).Draw(g.t, "c18stmt") {
 		case 0:
-			return &Stmt{K: "line", Text: []TextPart{{S: fmt.Sprintf("Bob: L%d \\[x\\] [b]bold [i/] é[/b] [select value=m m=\"he\" /]", g.lineID)}}}
+			return &Stmt{K: "line", Text: []TextPart{{S: fmt.Sprintf("Bob: L%d \\[x\\] [b]bold [i/] é[/b] [select value=m m=\"he\" /] [nomarkup][raw][/nomarkup] [plural value=2 one=\"a\" other=\"%% b\"]x[/plural] [select value=f f=\"she\"]y[/select]", g.lineID)}}}
 		case 1:
 			return &Stmt{K: "line", Text: []TextPart{{S: fmt.Sprintf("L%d ", g.lineID)}, {E: call("round_places", bin("/", varRef("k2"), num("3")), num("2"))}, {S: " "}, {E: call("string", varRef("f1"))}}}
 		}
@@ -169,7 +172,11 @@ var c18Concurrently = Register(Prop[c18Case]{
 			}
 			f := genFlowCase(t, c18ScriptOpts)
 			f.Junk = nil
-			c.Programs = append(c.Programs, c18Prog{flowCase: f, Seed: genSeedLegal(t)})
+			seed := genSeedLegal(t)
+			if rapid.IntRange(0, 3).Draw(t, "emptyseed") == 0 {
+				seed = ""
+			}
+			c.Programs = append(c.Programs, c18Prog{flowCase: f, Seed: seed})
 		}
 		c.Rounds = rapid.IntRange(1, 3).Draw(t, "rounds")
 		return c
